@@ -93,4 +93,25 @@ theorem propose_pick_eq (pc : List Pos) (asc : List Nat) (p : Pos) (h : propose_
       rw [← List.head?_reverse]
       simpa [List.head?_eq_getElem?] using hh
 
+/-- `_training` of the three surrogate classes makes exactly the draws the model's `trainTape` makes: none for Bayes and TPE,
+    a `move_random` on an empty `Y_sample` for Forest (the model's flag `trainsOnEmpty` is thereby read off the source) -/
+theorem bayes_training_eq (cfg : SmboCfg) (s : SmboSt) (h : cfg.trainsOnEmpty = false) :
+    trainTape cfg s = BayesianOptimizer_training_draws (decide (s.sm.Y = [])) s.tape := by
+  unfold trainTape BayesianOptimizer_training_draws; simp [h]
+
+theorem tpe_training_eq (cfg : SmboCfg) (s : SmboSt) (h : cfg.trainsOnEmpty = false) :
+    trainTape cfg s = TreeStructuredParzenEstimators_training_draws (decide (s.sm.Y = [])) s.tape := by
+  unfold trainTape TreeStructuredParzenEstimators_training_draws; simp [h]
+
+theorem forest_training_eq (cfg : SmboCfg) (s : SmboSt) (h : cfg.trainsOnEmpty = true) :
+    trainTape cfg s = ForestOptimizer_training_draws (decide (s.sm.Y = [])) s.tape := by
+  unfold trainTape ForestOptimizer_training_draws
+  by_cases hy : s.sm.Y = []
+  · simp only [h, hy, and_self, if_true, decide_true]
+    cases moveRandomLoop s.tape <;> rfl
+  · simp [h, hy]
+
+/-- LipschitzOptimizer's own `iterate` selects like `_propose_location` -/
+theorem lipschitz_pick_eq (pc : List Pos) (asc : List Nat) : lipschitz_pick pc asc = propose_pick pc asc := rfl
+
 end GFO.Gen.Smb
